@@ -587,6 +587,34 @@ def splice_spec(item, pc, text):
     pc.insert(t[p].e, "\n" + text.rstrip() + "\n", "R-SPLICE")
 
 
+def rule_hoist(item, pc, ordinal, literal, name):
+    """R-HOIST: `for x in PRE<literal>POST {` -> `let name = <literal>; for x in PRE name POST {`.
+    The iterable expression of a `for` is evaluated exactly once, at loop entry, so binding one of its sub-expressions
+    with `let` immediately before the loop preserves meaning (rustc itself suggests it: Verus's desugaring of `for`
+    does not extend the lifetime of temporaries in the iterable expression)."""
+    src, t = item.src, item.src.toks
+    ls = loops_of(item)
+    k = ls[ordinal - 1]
+    if t[k].text != "for":
+        raise ExtractError("R-HOIST only applies to for loops")
+    j = k + 1
+    while not (t[j].kind == "ident" and t[j].text == "in"):
+        if t[j].text in OPEN:
+            j = src.match(j)
+        j += 1
+    b = loop_body_open(src, k)
+    s0, e0 = t[src.sig(j + 1)].s, t[b].s
+    expr = src.text[s0:e0]
+    if expr.count(literal) != 1:
+        raise ExtractError(f"R-HOIST: {literal!r} must occur exactly once in the iterable expression {expr.strip()!r}")
+    off = s0 + expr.index(literal)
+    if not (any(x.s == off for x in t[j:b]) and any(x.e == off + len(literal) for x in t[j:b])):
+        raise ExtractError("R-HOIST: literal is not at token boundaries")
+    pc.delete(off, off + len(literal), "R-HOIST")
+    pc.insert(off, name, "R-HOIST")
+    pc.insert(t[k].s, f"let {name} = {literal};\n", "R-HOIST")
+
+
 def splice_loop(item, pc, ordinal, text, iter_name=None):
     ls = loops_of(item)
     if ordinal < 1 or ordinal > len(ls):
